@@ -16,8 +16,8 @@ def O(k="num", neg=0, ip=0, fp=0, u=""):
     return {"k": k, "neg": neg, "ip": ip, "fp": fp, "u": u}
 
 
-def ev(case, fn, args, obs):
-    return {"case": case, "devs": [], "fn": fn, "args": args, "obs": obs}
+def ev(case, fn, args, obs, ns="math"):
+    return {"case": case, "devs": [], "ns": ns, "fn": fn, "args": args, "obs": obs}
 
 
 def run():
@@ -34,12 +34,19 @@ def run():
         ev(6, "div", [N(1, 1, "in"), N(2, 1, "px")], O(ip=48)),
         ev(7, "percentage", [N(-3, 2)], O(neg=1, ip=150, u="%")),
         ev(8, "abs", [{"k": "-inf", "n": 0, "d": 1, "u": ""}], O(k="inf")),
+        ev(9, "clamp", [N(3, 1, "px"), N(5, 1, "px"), N(1, 1, "px")], O(ip=3, u="px"), "css"),      # MIN > MAX: MIN wins
+        ev(10, "clamp", [N(1, 1, "in"), N(2, 1, "in"), N(1, 1, "cm")], O(ip=1, u="in"), "css"),
+        ev(11, "mod", [N(-7, 2, "px"), N(1, 1, "in")], O(ip=92, fp=500000, u="px"), "css"),         # -3.5px mod 96px = 92.5px
+        ev(12, "rem", [N(-7, 2), N(3, 1)], O(neg=1, fp=500000), "css"),
+        ev(13, "round_up", [N(5, 4, "in"), N(48, 1, "px")], O(ip=1, fp=500000, u="in"), "css"),     # multiples of 0.5in
     ]
     bad = json.loads(json.dumps(good))
     bad[0]["obs"] = O(ip=2, u="px")                                             # banker's rounding
     bad[2]["obs"] = O(ip=0, fp=20833, u="in")                                   # converted value instead of the argument
     bad[3]["obs"] = O(ip=2, u="px")                                             # unit error missing
-    corrupted = {0, 2, 3}
+    bad[9]["obs"] = O(ip=1, u="px")                                             # clamp with MIN > MAX returned MAX
+    bad[11]["obs"] = O(neg=1, ip=3, fp=500000, u="px")                          # mod with the sign of the dividend
+    corrupted = {0, 2, 3, 9, 11}
     late = json.loads(json.dumps(good))
     late[2]["obs"] = bad[2]["obs"]
 
